@@ -427,7 +427,7 @@ class World:
                     e = self.keys[r[1]].pubkey.encrypt(e, sessionkey=sk, cipher=S(alg), **self.enc_kwargs(r[1]))
         return e
 
-    def impl_decrypt_obj(self, em, r):
+    def impl_decrypt_obj(self, em, r, enc_in_blob=False):
         """one decrypt call on an already parsed PGPMessage OBJECT (the object may have been used before)"""
         with warnings.catch_warnings():
             warnings.simplefilter('ignore')
@@ -436,8 +436,10 @@ class World:
                     d = em.decrypt(r[1])
                 else:
                     d = self.keys[r[1]].decrypt(em)
-                    if d is em:
+                    if d is em and not enc_in_blob:
                         raise NotEncryptedReturned()
+                    # (the input DID carry an encrypted data packet, yet PGPKey.decrypt handed the object back with only a
+                    #  "not encrypted" warning: whatever content it now shows is what the caller takes for the plaintext)
                 return ('ok', canon_plain(d))
             except Exception as ex:
                 return ('raise', type(ex).__name__, 'decrypt')
@@ -451,7 +453,14 @@ class World:
                 em = self.pgpy.PGPMessage.from_blob(blob)
             except Exception as ex:
                 return ('raise', type(ex).__name__, 'parse')
-        return self.impl_decrypt_obj(em, r)
+        enc_in_blob = False
+        if isinstance(blob, (bytes, bytearray)):
+            try:
+                from . import sigcommon as _S
+                enc_in_blob = any(p[0] in (9, 18) for p in _S.split_packets(bytes(blob)))
+            except Exception:
+                enc_in_blob = False
+        return self.impl_decrypt_obj(em, r, enc_in_blob)
 
     def model_decrypt(self, raw, r):
         if r[0] == 'P':
